@@ -476,7 +476,7 @@ pub fn cmd_random(args: &[String]) -> i32 {
     let mut f = std::io::BufWriter::new(std::fs::File::create(&out).expect("create"));
     let mut steps = 0;
     for r in 0..runs {
-        let needs: Vec<usize> = if nc { vec![1, 2, 3] } else { vec![1, 2.min(cap), cap, cap / 2 + 1] };
+        let needs: Vec<usize> = if nc { vec![1, 2, 3] } else { vec![1, 2.min(cap), cap, cap / 2 + 1, cap + 1] };  // incl. more than the stream can ever hold
         let tr = random_run(seed.wrapping_mul(100003).wrapping_add(r as u64), cap, total, max_calls, &needs, nc);
         steps += tr.len();
         for s in tr {
